@@ -8,6 +8,7 @@ of honest keypers, keys messages carrying correct keys, and the keyper's own tri
 -/
 import Shutter.Properties.C01
 import Shutter.Model.Net
+import Shutter.Drive.EpochKG
 
 open Polynomial
 
@@ -466,5 +467,28 @@ noncomputable def exWorld : World ℚ ℚ :=
 
 example : exWorld.t ≤ (World.seen [Ev.own (exWorld.msg 0), Ev.shares (exWorld.msg 2)]).card := by
   simp [World.seen, World.senderOf, World.msg, exWorld]
+
+/-! ### the open finding, in the model
+
+`C03_complete` needs the event that completes the threshold to be a share message.  When it is the keyper's own
+trigger nothing is aggregated (`ConstructDecryptionKeyShares` stores the shares and returns), so the keyper holds
+`t` valid shares and no key until another message arrives.  Known finding `own-share-completes-threshold`; the same
+history fails on the implementation. -/
+
+/-- **The own trigger never derives a key.** -/
+theorem C03_own_trigger_no_key {F G : Type} (o : Ops F G) (verify : Sort.Bytes → Nat → G → Bool) (n t : Nat)
+    (nd : Node G) (m : ShareMsg G) : (Net.step o verify n t nd (.own m)).keys = nd.keys := rfl
+
+/-- `f = 5 + X` on discrete logarithms: keyper `s` holds `f(s + 1)`, one identity -/
+def openMsg (s : Nat) : ShareMsg Nat := { sender := s, shares := [([0], 5 + (s + 1))] }
+def openVerify : Sort.Bytes → Nat → Nat → Bool := fun _ s sh => sh = 5 + (s + 1)
+
+/-- n = 3, t = 2: keyper 0 receives keyper 1's shares and is then triggered itself — two valid shares stored, no
+    key; in the other order the same two events give the key. -/
+theorem C03_open_finding_witness :
+    (runNode Drive.EpochKG.modOps openVerify 3 2 {} [.shares (openMsg 1), .own (openMsg 0)]).keys = [] ∧
+    (runNode Drive.EpochKG.modOps openVerify 3 2 {} [.shares (openMsg 1), .own (openMsg 0)]).rows.length = 2 ∧
+    (runNode Drive.EpochKG.modOps openVerify 3 2 {} [.own (openMsg 0), .shares (openMsg 1)]).keys.length = 1 := by
+  decide
 
 end Shutter.Properties.C03
